@@ -94,4 +94,46 @@ Example wimg_shape_r :
   existsb (fun m => negb (m_is_leaf m)) (im_methods wimg_r) = true /\ 0 < SSmax wimg_r.
 Proof. repeat split; vm_compute; reflexivity. Qed.
 
+
+(* ---- non-vacuity of the frame-corruption theorem (MethodContractRimi.every_rimi_method_frame_corruption):
+   a method of the witness image that has callees, entered at its first instruction ---- *)
+Fixpoint first_caller (ms : list method) (i : nat) : option (nat * method) :=
+  match ms with
+  | [] => None
+  | m :: tl => match m_callees m with [] => first_caller tl (Datatypes.S i) | _ => Some (i, m) end
+  end.
+
+Definition wid_r : nat := match first_caller (im_methods wimg_r) 0 with Some (i, _) => i | None => O end.
+Definition wm_r : method :=
+  match first_caller (im_methods wimg_r) 0 with Some (_, m) => m | None => mk_method 0 0 0 0 0 0 0 [] [] end.
+Definition ws1_r : mstate := set_pc ws0_r (m_addr wm_r).
+
+Theorem rimi_frame_corruption_nonvacuous :
+  nth_error (im_methods wimg_r) wid_r = Some wm_r /\ m_is_leaf wm_r = false /\ m_callees wm_r <> [] /\ 0 < m_body wm_r /\
+  rimi wcfg_rimiss /\ rplaced wcfg_rimiss wimg_r wL_r /\ rcode_loaded wimg_r ws1_r /\ pc ws1_r = m_addr wm_r /\
+  env_ok (gv wcfg_rimiss) wL_r (c_data_reg wcfg_rimiss) ws1_r /\
+  (let N := need_method wcfg_rimiss (im_methods wimg_r) (max_depth (im_methods wimg_r)) wid_r in
+   let SSN := ss_need (im_methods wimg_r) (max_depth (im_methods wimg_r)) wid_r in
+   let S := rget ws1_r 2 in let P := rget ws1_r 28 in
+   S mod 8 = 0 /\ N <= S < W64 /\ stk_lo wL_r <= S - N /\ S <= stk_hi wL_r /\
+   P mod 8 = 0 /\ SSN <= P < W64 /\ ss_lo wL_r <= P - SSN /\ P <= ss_hi wL_r) /\
+  0 <= rget ws1_r 8 < W64 /\ 0 <= rget ws1_r 1 < W64.
+Proof.
+  split; [vm_compute; reflexivity|]. split; [vm_compute; reflexivity|].
+  split; [vm_compute; discriminate|]. split; [vm_compute; reflexivity|].
+  split; [left; reflexivity|].
+  split.
+  { apply (rflat_placed wcfg_rimiss wscript_rimiss wimg_r wimg_successful_r eq_refl wL_r ws0_r ws0_init_r); [reflexivity|vm_compute; reflexivity]. }
+  split.
+  { destruct (rflat_loaded wcfg_rimiss wscript_rimiss wimg_r wimg_successful_r wL_r ws0_r ws0_init_r eq_refl) as (H & _).
+    assert (Em : mem ws1_r = mem ws0_r) by (unfold ws1_r, set_pc; cbn [mem]; reflexivity).
+    unfold rcode_loaded in *. rewrite Em. exact H. }
+  split; [unfold ws1_r, set_pc; cbn [pc]; reflexivity|].
+  split; [constructor; [vm_compute; reflexivity|exact I]|].
+  split; [vm_compute; repeat split; discriminate || reflexivity|].
+  split; [vm_compute; split; [discriminate|reflexivity]|].
+  vm_compute; split; [discriminate|reflexivity].
+Qed.
+
 Print Assumptions rimiss_image_from_files_nonvacuous.
+Print Assumptions rimi_frame_corruption_nonvacuous.
